@@ -236,7 +236,8 @@ class OutputAsync(addons.AddonAsync, block.SBlock):
 
     async def _output_coro_wrapper(self, data: Mapping) -> None:
         """Count the active tasks."""
-        self.set_output(self.output + 1)
+        # the block is not initialized if the simulation is being stopped before its start
+        self.set_output(self.output + 1 if self.is_initialized() else 1)
         try:
             await self._output_coro(data)
         finally:
